@@ -105,10 +105,12 @@ def main():
     shapes = [(3,), (2, 3), (3, 2, 2), (1, 4, 2)]
     forms = [0, -1, slice(None), slice(1, None), slice(None, -1), slice(0, 5, 2), Ellipsis]
     for shape in shapes:
-        for L in range(0, len(shape) + 1):
+        for L in range(0, len(shape) + 2):
             for tup in itertools.product(forms, repeat=L):
                 if sum(1 for t in tup if t is Ellipsis) > 1:
                     continue
+                if L == len(shape) + 1 and Ellipsis not in tup:
+                    continue          # too many indices (IndexError) is outside the property; a zero-width Ellipsis is inside
                 # numpy oracle: per-axis index lists via np.ix_-free trick (index an index grid)
                 try:
                     grids = np.indices(shape)
@@ -171,8 +173,8 @@ def main():
     for _ in range(ntuples):
         rank = rng.randint(1, 3)
         shape = tuple(rng.randint(0, NMAX) for _ in range(rank))
-        L = rng.randint(0, rank)
-        ell = rng.random() < 0.4 and L > 0
+        L = rng.randint(0, rank + 1)
+        ell = (rng.random() < 0.4 and L > 0) or L == rank + 1      # rank+1 items: one is a zero-width Ellipsis
         sl = []
         axes = list(range(rank))
         pos = rng.randrange(L) if ell else -1
